@@ -24,7 +24,7 @@ from . import c05
 
 LEVEL = "model_checking"
 
-CLIENTS = ["A", "B", "C", "D", "F"]
+CLIENTS = ["A", "B", "C", "D", "F", "G"]
 PROGRAMS = {
     "P1": ["build", "render"],
     "P2": ["build", "render", "render"],
@@ -111,7 +111,19 @@ def materials(work: Path):
         )
         + "\n"
     )
-    return {"A": str(a), "B": str(bdir), "C": str(c), "D": str(d)}
+    # G: upper-case element list *without* replacement table (aliases are normalised HE -> He by Species.alias)
+    g = work / "g.kida"
+    g.write_text(
+        "\n".join(
+            [
+                F.enc_kida(F.AReaction(["HE"], ["HE+", "E"], 0.5, 0.0, 0.0, -9999, 9999, 1, 1, "CR")),
+                F.enc_kida(F.AReaction(["HE+", "E"], ["HE"], 1e-11, -0.5, 0.0, 10, 800, 2, 3)),
+                F.enc_kida(F.AReaction(["HE+", "H"], ["HE", "H+"], 1e-15, 0.0, 0.0, 10, 800, 3, 3)),
+            ]
+        )
+        + "\n"
+    )
+    return {"A": str(a), "B": str(bdir), "C": str(c), "D": str(d), "G": str(g)}
 
 
 def client_build(c, mat):
@@ -132,6 +144,8 @@ def client_build(c, mat):
         )
     if c == "D":
         return Network(filelist=mat["D"], fileformats="krome")
+    if c == "G":
+        return Network(filelist=mat["G"], fileformats="kida", elements=["E", "H", "HE", "C", "O"], pseudo_elements=["CR", "Photon"])
     if c == "F":
         return Network(
             [
@@ -148,7 +162,7 @@ def client_edit(c, net):
     from naunet.reactions.reaction import Reaction
     from naunet.reactiontype import ReactionType
 
-    extra = {"A": (["C2", "H"], ["CH", "C"]), "C": (["H2O", "CRP"], ["OH", "H"]), "D": (["H", "H2"], ["H2", "H"]), "F": (["H2", "CR"], ["H", "H"])}[c]
+    extra = {"G": (["HE", "H+"], ["HE+", "H"]), "A": (["C2", "H"], ["CH", "C"]), "C": (["H2O", "CRP"], ["OH", "H"]), "D": (["H", "H2"], ["H2", "H"]), "F": (["H2", "CR"], ["H", "H"])}[c]
     t = ReactionType.GAS_COSMICRAY if ("CR" in extra[0] or "CRP" in extra[0]) else ReactionType.GAS_TWOBODY
     net.add_reaction(Reaction(list(extra[0]), list(extra[1]), -1.0, -1.0, 1e-10, 0.0, 0.0, t, 77))
     net.allowed_species = [s.name for s in sorted(net.species, key=lambda s: s.name)]
@@ -245,6 +259,13 @@ def run_schedule(arg):
     return {"progs": progs, "schedule": schedule, "obs": obs, "globals": sorted(gl)}
 
 
+CUSTOM_LISTS = ("B", "C", "G")  # clients that install their own element / pseudo-element lists
+
+
+def victim_class(c):
+    return "cli" if c == "B" else "custom-lists" if c in CUSTOM_LISTS else "default-lists"
+
+
 def culprits(r, c, kind, h=""):
     """root-cause tag: which earlier client's global writes reached the victim"""
     progs = r["progs"]
@@ -257,12 +278,14 @@ def culprits(r, c, kind, h=""):
         if idxs:
             last = idxs[0]
     before = [progs[ci][0] for ci, st in r["schedule"][:last] if ci != vi]
-    if h.startswith("EXC") and ("Unrecongnized name" in h or "unrecognizable" in h):
-        custom = [x for x in before if x in ("B", "C")]
-        if custom:
-            return f"element-lists-of-{custom[-1]}"
+    custom = [x for x in before if x in CUSTOM_LISTS]
+    if h.startswith("EXC") and ("Unrecongnized name" in h or "unrecognizable" in h) and custom:
+        return f"element-lists-of-{custom[-1]}"
     if not h.startswith("EXC") and "B" in before and c == "F":
         return "binding-energy-table-of-B"
+    if not h.startswith("EXC") and custom and c in CUSTOM_LISTS:
+        # lazily computed aliases (HE -> He normalisation) are taken under whatever lists are installed at render time
+        return f"alias-under-element-lists-of-{custom[-1]}"
     return "with-" + "+".join(sorted(set(before)))
 
 
@@ -376,7 +399,7 @@ def run(ctx):
                     tag = culprits(r, c, kind, h)
                     what = "raises" if h.startswith("EXC") else "differs"
                     ctx.violation(
-                        f"C17:interleaved:{c}:{kind}:{what}:{tag}",
+                        f"C17:interleaved:{victim_class(c)}:{what}:{tag}",
                         f"schedule {r['schedule']} of {r['progs']} (hash seed {s}): render of {c} gives {h}, alone in a fresh process {exp}",
                         {"progs": r["progs"], "schedule": r["schedule"], "seed": s},
                     )
@@ -384,7 +407,7 @@ def run(ctx):
         "scheduling points are public API call boundaries (the library is single-threaded); every schedule runs in a fresh process forked from a parent that never touched a naunet global",
         "hash = sha256 over include/ src/ python/ with the project name masked (the only embedded date lives in the top-level CMakeLists.txt, outside the hashed trees)",
         "reference hash of a client = rendering it alone in fresh processes under several PYTHONHASHSEED values, twice in a row; these must agree among themselves",
-        "clients: A KIDA/default lists; B UCLCHEM project through RenderCommand (upper-case elements, replacement table, binding energy and yield of #CO); C Leeds with custom element lists and prefix G; D KROME with @var/@common; F API-built ice network reading #CO's binding energy",
+        "clients: A KIDA/default lists; B UCLCHEM project through RenderCommand (upper-case elements, replacement table, binding energy and yield of #CO); C Leeds with custom element lists and prefix G; D KROME with @var/@common; F API-built ice network reading #CO's binding energy; G KIDA file with an upper-case element list and no replacement table",
     ]
     return {
         "states": nsched + nexec,
@@ -424,7 +447,7 @@ def replay(ctx, case):
         if h != ref:
             tag = culprits({"progs": progs, "schedule": sched}, c, kind, h)
             what = "raises" if h.startswith("EXC") else "differs"
-            ctx.violation(f"C17:interleaved:{c}:{kind}:{what}:{tag}", f"schedule {sched}: render of {c} gives {h}, alone {ref}", case)
+            ctx.violation(f"C17:interleaved:{victim_class(c)}:{what}:{tag}", f"schedule {sched}: render of {c} gives {h}, alone {ref}", case)
 
 
 if __name__ == "__main__":
